@@ -20,6 +20,7 @@ import (
 	"github.com/google/wuffs/lib/raczlib"
 	"github.com/google/wuffs/lib/raczstd"
 
+	"verif/racx"
 	"verif/sim"
 )
 
@@ -394,7 +395,7 @@ func (w *c13Workload) codecWriter() rac.CodecWriter {
 	case "zstd":
 		return &raczstd.CodecWriter{}
 	}
-	return &stubWriter{useTertiary: w.Tertiary}
+	return &racx.StubWriter{UseTertiary: w.Tertiary}
 }
 
 // execute drives the real rac.Writer over the simulated storage.
@@ -461,7 +462,7 @@ func (w *c13Workload) execute(plan map[int]int, trace func(string, ...interface{
 }
 
 func codecReaders() []rac.CodecReader {
-	return []rac.CodecReader{&stubReader{}, &raczlib.CodecReader{}, &raclz4.CodecReader{}, &raczstd.CodecReader{}}
+	return []rac.CodecReader{&racx.StubReader{}, &raczlib.CodecReader{}, &raclz4.CodecReader{}, &raczstd.CodecReader{}}
 }
 
 func runC13(t *sim.Tape, opt sim.RunOpt) *sim.Outcome {
@@ -513,7 +514,7 @@ func runC13(t *sim.Tape, opt sim.RunOpt) *sim.Outcome {
 	} else {
 		o.Probe("faultfree_close_ok")
 		file := ex.disk.out
-		sf, err := ValidateRAC(file, 1<<22)
+		sf, err := racx.ValidateRAC(file, 1<<22)
 		if err != nil {
 			o.Fail("spec_invalid", "", "Close returned nil but the file (%d bytes) fails RAC structural validation: %v; workload %s", len(file), err, w)
 			return o
@@ -533,7 +534,7 @@ func runC13(t *sim.Tape, opt sim.RunOpt) *sim.Outcome {
 			o.Probe("three_level_index")
 		}
 		o.ProbeN("leaves", int64(len(sf.Leaves)))
-		dec, ok, err := DecodeSpec(file, sf)
+		dec, ok, err := racx.DecodeSpec(file, sf)
 		if err != nil {
 			o.Fail("spec_decode", "", "independent decode failed: %v; workload %s", err, w)
 			return o
@@ -546,13 +547,13 @@ func runC13(t *sim.Tape, opt sim.RunOpt) *sim.Outcome {
 			}
 		}
 		for _, l := range sf.Leaves {
-			if l.S.size() > 0 {
+			if l.S.Size() > 0 {
 				o.Probe("leaf_with_secondary")
 			}
-			if l.T.size() > 0 {
+			if l.T.Size() > 0 {
 				o.Probe("leaf_with_tertiary")
 			}
-			if l.P.size() == 0 {
+			if l.P.Size() == 0 {
 				o.Probe("leaf_with_empty_primary")
 			}
 		}
@@ -674,4 +675,3 @@ func firstDiff(a, b []byte) int {
 	}
 	return n
 }
-
